@@ -3,7 +3,7 @@ CONSTANTS
   MKind = "bytes"
   MEty = "u8"
   Prefixes <- PrefBases
-  OpNames = {"push", "pop", "clear", "insert", "remove", "set", "swap", "resize", "append", "append_self", "split_at", "splice"}
+  OpNames = {"push", "pop", "clear", "insert", "remove", "set", "swap", "resize", "iter", "append", "append_self", "split_at", "splice"}
   MaxOps = 2
   NumSel <- NumSel_none
 SPECIFICATION GenSpec
